@@ -1,5 +1,5 @@
 /- C07 helper lemmas (see Props/C07.lean for the property theorems). -/
-import NeoModel.Proofs.FeesRun
+import NeoModel.Proofs.FeesShape
 namespace NeoModel.Fees
 open NeoModel.Generated.FeeConsts
 open NeoModel.Wire (leBytes leVal putVarUint varUintSize)
@@ -165,9 +165,16 @@ theorem calculate_built (base m : Nat) (keys : List Bytes) (h1 : 1 ≤ m) (hmn :
     calculate base (builtMultisig m keys)
       = (picoToDatoshi (multisigPico base m keys.length),
          varUintSize (66 * m) + 66 * m + (varUintSize (builtMultisig m keys).length + (builtMultisig m keys).length)) := by
+  have hshape : builtMultisig m keys = msShape (emitInt m) keys (emitInt keys.length) := rfl
+  have hops := shape_ops (emitInt m) (emitInt keys.length) keys m keys.length
+    (pushInt_emitInt m (by omega)) (pushInt_emitInt keys.length (by omega)) (fun k hk' => by rw [hk k hk']; decide)
   unfold calculate
   rw [isSignatureContract_built m keys (by omega) hk, parseMultiSig_built m keys h1 hmn hn hk]
-  simp [multisigPico]
+  simp only [Bool.false_eq_true, if_false]
+  rw [hshape, hops.1, hops.2]
+  simp only [multisigPico, calculateMultisig, opOf, Nat.mul_add, Nat.add_mul]
+  congr 2
+  omega
 
 end NeoModel.Fees
 
